@@ -405,7 +405,7 @@ def _py_number_kind(s):
 SPECS = {
     # (module, global) -> dict(lang, methods allowed, reading(s) -> bool, props, what)
     ("py_gql.schema.validation", "VALID_NAME_RE"): dict(
-        lang=Lang(NAME, mustnot=[cat(lit("__"), star(ANY))]), read=lambda s: _py_is_name(s) and not s.startswith("__"), props=("C13",),
+        lang=Lang(NAME, mustnot=[cat(lit("__"), star(ANY))]), read=lambda s: _py_is_name(s) and not s.startswith("__"), props=("C13", "C11"),
         what="a well-formed schema element name: a Name of the grammar that does not begin with two underscores"),
     ("py_gql.utilities.ast_node_from_value", "_NAME_RE"): dict(
         lang=Lang(NAME), read=_py_is_name, props=("C12", "C15"),
